@@ -46,6 +46,13 @@ def new_pregex(eng, path, label, tname, cls=None, text=None, cats=None, repeatab
 # ------------------------------------------------------------------------------------------------------
 # parameter kinds
 
+_OPK = TYPE_NAMES + ["str0", "str1", "str2", "other"]
+# operand tuples of the variadic class forms: none, every single operand kind, every PAIR of operand kinds, and
+# representative triples (the arity is enumerated - a stated bound; the kinds within an arity <= 2 are complete)
+VARPRE = [""] + _OPK + [a + "|" + b for a in _OPK for b in _OPK] + [
+    "Alternation|Empty|Other", "Other|Other|Other", "Assertion|Other|str2", "Other|Alternation|Empty", "str2|Empty|Other",
+    "Other|str0|Quantifier", "Group|Class|Token", "other|Other|Other", "Other|Other|other"]
+
 KIND_TAGS = {
     "self": TYPE_NAMES,
     "pregex": TYPE_NAMES,
@@ -69,9 +76,7 @@ KIND_TAGS = {
     "newobj": ["new"],
     "varpre_small": ["", "Other", "str2", "other", "Empty", "Other|Alternation", "Empty|Other", "Other|other", "str2|Empty|Other",
                      "Assertion|str1"],
-    "varpre": ["", "Other", "str2", "other", "Other|Alternation", "Empty|Other", "Other|Empty", "str2|Other", "Other|str1",
-               "Other|other", "Alternation|Empty|Other", "Other|Other|Other", "Assertion|Other|str2", "Other|Alternation|Empty",
-               "Empty|Empty", "str0|Other", "Other|str0|Quantifier"],
+    "varpre": VARPRE,
 }
 
 NAME_RX = "[A-Za-z_]\\w*"
@@ -332,8 +337,18 @@ FIXEDW_F = z3.Function("FIXEDW", StrS, BoolS)
 LBMSG = "look-behind requires fixed-width pattern"
 
 
+_concrete_cache = {}
+
+
 def sb_FIXEDW(eng, path, text):
     """R6: re accepts the text as a look-behind body iff it has one fixed width (uninterpreted; see B6)"""
+    if isinstance(text, str):
+        # a constant: `re` itself is asked (R6 executed, not assumed)
+        from .common import native_fast
+        key = ("fixedw", text)
+        if key not in _concrete_cache:
+            _concrete_cache[key] = bool(native_fast("fixed_width", {"text": text}))
+        return _concrete_cache[key]
     return FIXEDW_F(str_term(text))
 
 
@@ -991,9 +1006,13 @@ def ret_opaque_class(eng, path, env, fi, contract):
 
 
 def ret_opaque_init(eng, path, env, fi, contract):
+    """the constructed instance is an arbitrary non-empty Pregex: text unknown, inferred type and flag any the class
+    invariant allows (explored by forking where the caller consults them)"""
     me = env["self"]
     src = new_pregex(eng, path, "init", "Other")
     path.fields(me).update(path.fields(src))
+    path.fields(me)["_Pregex__type"] = Unknown("inferred type of a meta pattern")
+    path.fields(me)["_Pregex__repeatable"] = Unknown("inferred flag of a meta pattern")
     return None
 
 
@@ -1030,9 +1049,6 @@ def generic_construct(eng, ci, args, kwargs, fr, path):
     if base_tok is not None and ci.is_subclass_of(base_tok):
         return new_pregex(eng, path, ci.name, "Token", cls=ci)
     return None
-
-
-_concrete_cache = {}
 
 
 def concrete_construct(eng, ci, args, kwargs, fr, path):
